@@ -155,8 +155,8 @@ def run(tier):
     r = rng(PROP)
     runner = genlib.Runner()
     reqs, pend = [], []
-    for i in range(40 if thorough else 6):
-        crash_case(runner, r, oc, reqs, pend, 2000 if thorough else 150, big=thorough)
+    for i in range(20 if thorough else 6):
+        crash_case(runner, r, oc, reqs, pend, 500 if thorough else 150, big=thorough)
         if oc.violations:
             break
     settle(oc, reqs, pend)
